@@ -899,6 +899,7 @@ func runC15(ctx *Ctx) {
 	// 3. documents, number parsing, NumOK
 	runC15Docs(ctx)
 	runC15Deep(ctx)
+	c15Floors(ctx)
 	sort.Strings(ctx.res.Samples)
 }
 
